@@ -120,11 +120,11 @@ func (r *Run) innovSiteOf(name, kind string) *innovSite {
 
 // C03 — an innovation number denotes one connection for the life of a population.
 func C03(p *Prog, r *Run) {
-	r.Explanation = "Decided per structural mutator (add-link, add-node, connect-sensors): (1) every created gene carries either a freshly issued number (one NextInnovationNumber call per gene, two distinct calls for the two genes of a split) or the number stored in the matched record (first gene InnovationNum, second InnovationNum2); new node ids are NextNodeId or the record's NewNodeId, role hidden; (2) the record is matched under the complete key (kind, in node id, out node id, recurrence flag resp. split gene's number), compared with the very values the new gene is built from, over a full scan of the list; (3) on the novel path exactly one record is stored, built from the same node ids, recurrence flag, numbers and node id just issued; (4) the counters are advanced only by atomic adds of a positive constant, written only when a population is created or read, initialised at or above the start genome's last number / id and only ever raised when reading; (5) both epoch executors forget the records on every non-error path of NextEpoch. Not decided: the induction over an unbounded run that these per-step conditions imply uniqueness."
+	r.Explanation = "Decided per structural mutator (add-link, add-node, connect-sensors): (1) every created gene carries either a freshly issued number (one NextInnovationNumber call per gene, two distinct calls for the two genes of a split) or the number stored in the matched record (first gene InnovationNum, second InnovationNum2); new node ids are NextNodeId or the record's NewNodeId, role hidden; (2) the record is matched under the complete key (kind, in node id, out node id, recurrence flag resp. split gene's number), compared with the very values the new gene is built from, over a full scan of the list; (3) on the novel path exactly one record is stored, built from the same node ids, recurrence flag, numbers and node id just issued, and nothing is issued or stored once a record matched; (4) the counters are advanced only by atomic adds of a positive constant, written only when a population is created or read, initialised (on every successful return of spawn) at or above the start genome's last number / id - the maximum over the last gene / node and the modules - and only ever raised when reading; (5) both epoch executors forget the records on every non-error path of NextEpoch, and the accessor the mutators scan returns exactly the list that is appended to and emptied. Not decided: the induction over an unbounded run that these per-step conditions imply uniqueness."
 	sums := NewSummaries(p)
 	c03Core(p, r, sums)
 
-	r.Rule("C03.4", "counters: issued by atomic adds of a positive constant; written only at population creation/reading; start at or above the start genome's last number and node id; reading only raises them", func() {
+	r.Rule("C03.4", "counters: issued by atomic adds of a positive constant; written only at population creation/reading; start at or above the start genome's last number and node id (the helpers return the maximum over the last element and the modules; spawn sets both counters from them on every successful return); reading only raises them", func() {
 		r.c03Counters(sums)
 	})
 
@@ -143,6 +143,10 @@ func C03(p *Prog, r *Run) {
 
 	r.Rule("C03.5", "the innovation records are forgotten on every non-error path of NextEpoch, for both executors", func() {
 		r.c03Reset()
+	})
+
+	r.Rule("C03.7", "the list the mutators look records up in is the list that is appended to and emptied: Innovations() returns the receiver's innovations field (or a full copy, or empty when it is empty) and nothing else decides what it returns - otherwise the end-of-generation reset does not forget what the lookup sees, or a stored record is not seen", func() {
+		r.c03Reader(p.Field(PkgG, "Population", "innovations"))
 	})
 }
 
@@ -194,6 +198,8 @@ func (r *Run) c03Counters(sums *Summaries) {
 	r.Fn(FuncName(lastNode), FuncName(nextGene))
 	ltm, gtm := NewTermer(lastNode), NewTermer(nextGene)
 	okL, okG := false, false
+	cG := int64(0) // the constant getNextGeneInnovNum adds to the last number (the smallest over its returns)
+	seenG := false
 	for _, b := range lastNode.Blocks {
 		if ret, ok := b.Instrs[len(b.Instrs)-1].(*ssa.Return); ok && ltm.Of(ret.Results[1]).Op == "nil" {
 			okL = true
@@ -227,27 +233,48 @@ func (r *Run) c03Counters(sums *Summaries) {
 	}
 	for _, b := range nextGene.Blocks {
 		if ret, ok := b.Instrs[len(b.Instrs)-1].(*ssa.Return); ok && gtm.Of(ret.Results[1]).Op == "nil" {
-			t := gtm.Of(ret.Results[0])
-			// (max(last gene number, last module number)) + c, c >= 0
-			if t.Op == "bin" && t.Name == "+" && t.Args[1].Op == "const" {
-				okG = true
-				for _, a := range t.Args[0].Alternatives() {
-					if !(a.Op == "field" && a.Name == "InnovationNum") {
-						okG = false
-					}
-				}
-			} else {
-				okG = true
-				for _, a := range t.Alternatives() {
-					if !(a.Op == "field" && a.Name == "InnovationNum") {
-						okG = false
-					}
+			// (max(last gene number, last module number)) + c, c >= 0, however the sum is spelled
+			base, c, isSum := constSum(gtm.Of(ret.Results[0]))
+			okG = isSum && c >= 0
+			if isSum && (!seenG || c < cG) {
+				cG, seenG = c, true
+			}
+			for _, a := range base.Alternatives() {
+				if !(a.Op == "field" && a.Name == "InnovationNum") && a.Op != "loop" {
+					okG = false
 				}
 			}
 		}
 	}
+	// both results are maxima: a module's id / number is passed over only when it is not larger (or there is none)
+	for _, x := range []struct {
+		fn *ssa.Function
+		tm *Termer
+	}{{lastNode, ltm}, {nextGene, gtm}} {
+		var probs []string
+		for _, b := range x.fn.Blocks {
+			if ret, ok := b.Instrs[len(b.Instrs)-1].(*ssa.Return); ok && b != x.fn.Recover && len(ret.Results) == 2 && x.tm.Of(ret.Results[1]).Op == "nil" {
+				probs = append(probs, c03MaxProblems(p, x.fn, underConstSum(ret.Results[0]))...)
+			}
+		}
+		r.Check(len(probs) == 0, x.fn.Name()+".max", p.Pos(x.fn.Pos()), "wherever the list's last value and a module's value meet, the larger one is kept; a module is passed over only when it is not larger or there is none",
+			x.fn.Name()+" does not return the maximum over the last element and the modules: "+strings.Join(probs, "; ")+": the counter starts below an id / number the start genome already holds, and the first ones issued collide with it")
+	}
+	// the modules' numbers take part at all, and it is the last module that is read
+	hasCGnum := false
+	for _, b := range nextGene.Blocks {
+		if ret, ok := b.Instrs[len(b.Instrs)-1].(*ssa.Return); ok && gtm.Of(ret.Results[1]).Op == "nil" {
+			base, _, _ := constSum(gtm.Of(ret.Results[0]))
+			for _, a := range base.Alternatives() {
+				if a.Op == "field" && a.Name == "InnovationNum" && strings.HasPrefix(a.Args[0].String(), "recv.ControlGenes[") {
+					hasCGnum = true
+				}
+			}
+		}
+	}
+	okG = okG && hasCGnum
 	r.Check(okL, "getLastNodeId", p.Pos(lastNode.Pos()), "returns the id of the last node (or a larger module node id)", "getLastNodeId does not return the last node's id / the largest module node id")
-	r.Check(okG, "getNextGeneInnovNum", p.Pos(nextGene.Pos()), "returns the last gene's number (or a larger module number) plus a non-negative constant", "getNextGeneInnovNum does not return the last gene's innovation number plus a non-negative constant")
+	r.Check(okG, "getNextGeneInnovNum", p.Pos(nextGene.Pos()), "returns the last gene's number (or a larger module number) plus a non-negative constant", "getNextGeneInnovNum does not return the last gene's innovation number (or the last module's, when larger) plus a non-negative constant")
 	// the last node / gene of the list is what is read
 	lastIdx := func(tm *Termer, fn *ssa.Function, list string) bool {
 		ok := false
@@ -261,7 +288,14 @@ func (r *Run) c03Counters(sums *Summaries) {
 		})
 		return ok
 	}
-	r.Check(lastIdx(ltm, lastNode, "Nodes") && lastIdx(gtm, nextGene, "Genes"), "last-element", p.Pos(lastNode.Pos()), "both helpers read the last element of the ordered list", "a helper does not read the last element of the ordered node / gene list")
+	// (the modules: the last one, or a scan over all of them)
+	allCG := false
+	for _, l := range Loops(nextGene) {
+		if loopRangesOver(gtm, l, "recv.ControlGenes") {
+			allCG = true
+		}
+	}
+	r.Check(lastIdx(ltm, lastNode, "Nodes") && lastIdx(gtm, nextGene, "Genes") && (allCG || lastIdx(gtm, nextGene, "ControlGenes")), "last-element", p.Pos(lastNode.Pos()), "both helpers read the last element of the ordered list", "a helper does not read the last element of the ordered node / gene list")
 	// spawn
 	spawn := p.Func(PkgG, "Population.spawn")
 	r.Fn(FuncName(spawn))
@@ -270,25 +304,9 @@ func (r *Run) c03Counters(sums *Summaries) {
 		for t.Op == "conv" {
 			t = t.Args[0]
 		}
-		off := int64(0)
-		for depth := 0; depth < 4; depth++ {
-			if t.Op == "bin" && (t.Name == "+" || t.Name == "-") && t.Args[1].Op == "const" {
-				k, ok := t.Args[1].V.(*ssa.Const)
-				if !ok || k.Value == nil {
-					return 0, false
-				}
-				v, _ := constant.Int64Val(k.Value)
-				if t.Name == "-" {
-					v = -v
-				}
-				off += v
-				t = t.Args[0]
-				for t.Op == "conv" {
-					t = t.Args[0]
-				}
-				continue
-			}
-			break
+		t, off, isSum := constSum(t)
+		if !isSum {
+			return 0, false
 		}
 		if t.Op == "extract" && t.Idx == 0 && t.Args[0].Op == "call" && t.Args[0].Name == "Genome."+callee && isParamIdx(t.Args[0].Args[0], 1) {
 			return off, true
@@ -299,32 +317,52 @@ func (r *Run) c03Counters(sums *Summaries) {
 	for _, x := range [][2]string{{"nextNodeId", "getLastNodeId"}, {"nextInnovNum", "getNextGeneInnovNum"}} {
 		sts := FieldStores(spawn, pop(x[0]))
 		total, ok := int64(0), len(sts) > 0
+		nBase := 0
 		for _, st := range sts {
 			t := stm.Of(st.Val)
 			if off, isBase := offset(t, x[1]); isBase {
 				total += off
+				nBase++
 				continue
 			}
 			// p.counter -= k
-			if t.Op == "bin" && (t.Name == "-" || t.Name == "+") && t.Args[0].Op == "field" && t.Args[0].Obj == pop(x[0]) && t.Args[1].Op == "const" {
-				k := t.Args[1].V.(*ssa.Const)
-				v, _ := constant.Int64Val(k.Value)
-				if t.Name == "-" {
-					v = -v
-				}
+			if rest, v, isSum := constSum(t); isSum && rest.Op == "field" && rest.Obj == pop(x[0]) {
 				total += v
 				continue
 			}
 			ok = false
 		}
-		// node ids: counter >= last id  (issue = counter+1 > last); numbers: helper returns last+1 (+c), counter >= last means offset >= -1
+		// node ids: counter >= last id  (issue = counter+1 > last); numbers: helper returns last+cG, counter >= last means offset >= -cG
 		min := int64(0)
 		if x[0] == "nextInnovNum" {
-			min = -1
+			// the helper returns last + cG: the counter stays at or above the last number while cG + total >= 0
+			min = -cG
 		}
+		// (exactly one store takes the helper's result; adjusting a counter that was never set from it proves nothing)
+		ok = ok && nBase == 1
 		r.Check(ok && total >= min, "spawn."+x[0], p.Pos(spawn.Pos()), fmt.Sprintf("%s = %s(start genome) %+d", x[0], x[1], total),
 			fmt.Sprintf("spawn initialises %s to %s(start genome) %+d (decidable=%v): the first number issued could collide with one the start genome already uses", x[0], x[1], total, ok))
 	}
+	// ... and on every successful return of spawn: a path that completes without the store leaves the counter at zero
+	for _, x := range [][2]string{{"nextNodeId", "getLastNodeId"}, {"nextInnovNum", "getNextGeneInnovNum"}} {
+		var base *ssa.Store
+		for _, st := range FieldStores(spawn, pop(x[0])) {
+			if _, isBase := offset(stm.Of(st.Val), x[1]); isBase {
+				base = st
+			}
+		}
+		if base == nil {
+			continue // reported above
+		}
+		w := FindPath(p, PathQuery{Fn: spawn, Target: func(in ssa.Instruction) bool {
+			return IsReturn(in) && in.Block() != spawn.Recover && !c03IsErrReturn(in)
+		},
+			Avoid: func(in ssa.Instruction) bool { return in == ssa.Instruction(base) }})
+		r.Check(w == nil, "spawn."+x[0]+".always", p.Pos(base.Pos()), "every return without an error has set "+x[0]+" from the start genome",
+			"spawn can return without an error and without having set "+x[0]+" from "+x[1]+"(start genome): the counter stays at zero and the numbers / ids issued collide with the start genome's", w...)
+	}
+	// the population of random genomes
+	r.c03RandomCounters()
 	// ReadPopulation only raises, each counter under its own test
 	rp := p.Func(PkgG, "ReadPopulation")
 	r.Fn(FuncName(rp))
@@ -350,26 +388,43 @@ func (r *Run) c03Counters(sums *Summaries) {
 				continue
 			}
 			var raising bool
+			var compared ssa.Value
 			var extra []string
 			for _, g := range Guards(st.Block()) {
 				if !(call.Block() == g.At || call.Block().Dominates(g.At)) {
 					continue
 				}
 				gt := rtm.Of(g.Cond)
-				// err == nil of the same call
-				if gt.Op == "bin" && gt.Args[1].Op == "nil" && gt.Args[0].Op == "extract" && gt.Args[0].Args[0].V == ssa.Value(call) {
-					continue
-				}
-				if gt.Op == "bin" && (gt.Name == "<" || gt.Name == "<=") && g.True && gt.Args[0].Op == "field" && gt.Args[0].Obj == pop(x[0]) {
-					mentions := false
-					gt.Args[1].Walk(func(t *Term) bool {
+				mentions := func(v ssa.Value) bool {
+					hit := false
+					rtm.Of(v).Walk(func(t *Term) bool {
 						if t.V == ssa.Value(call) {
-							mentions = true
+							hit = true
 						}
-						return true
+						return !hit
 					})
-					if mentions {
+					return hit
+				}
+				isCounter := func(v ssa.Value) bool {
+					t := rtm.Of(v)
+					return t.Op == "field" && t.Obj == pop(x[0])
+				}
+				// the branch outcome as a comparison that holds, whatever its spelling (operands swapped, negated complement)
+				if cx, cy, op, isCmp := CmpFact(g.Cond, g.True); isCmp {
+					// err == nil of the same call
+					if k, isK := cy.(*ssa.Const); isK && k.Value == nil && op == token.EQL {
+						if xt := rtm.Of(cx); xt.Op == "extract" && xt.Args[0].V == ssa.Value(call) {
+							continue
+						}
+					}
+					// counter < value / counter <= value (value > counter / value >= counter)
+					if (isCounter(cx) && (op == token.LSS || op == token.LEQ) && mentions(cy)) ||
+						(isCounter(cy) && (op == token.GTR || op == token.GEQ) && mentions(cx)) {
 						raising = true
+						compared = cy
+						if isCounter(cy) {
+							compared = cx
+						}
 						continue
 					}
 				}
@@ -377,7 +432,32 @@ func (r *Run) c03Counters(sums *Summaries) {
 			}
 			r.Check(raising && len(extra) == 0, "ReadPopulation."+x[0], p.Pos(st.Pos()), x[0]+" is raised whenever a genome read exceeds it",
 				fmt.Sprintf("%s is updated under %v (its own `counter < value` test present=%v): it is not raised for every genome whose last id/number exceeds it", x[0], extra, raising))
-			// the stored value is at least the compared value
+			// neither the value compared with nor the value stored falls short of the genome's last id / number: the helper
+			// returns last (+cG for numbers); the counter is left alone only when it is >= the compared value and is set to
+			// the stored value otherwise, so both must be the helper's result plus a constant k with last + k' >= last
+			slack := int64(0)
+			if x[0] == "nextInnovNum" {
+				slack = cG
+			}
+			short := func(v ssa.Value) (string, bool) {
+				if v == nil {
+					return "?", true
+				}
+				rest, k, isSum := constSum(rtm.Of(v))
+				for rest != nil && rest.Op == "conv" {
+					rest = rest.Args[0]
+				}
+				if !isSum || rest == nil || rest.Op != "extract" || rest.Idx != 0 || rest.Args[0].V != ssa.Value(call) {
+					return rtm.Of(v).String(), true
+				}
+				return fmt.Sprintf("%s(genome) %+d", x[1], k), k+slack < 0
+			}
+			if raising {
+				cs, cShort := short(compared)
+				ss, sShort := short(st.Val)
+				r.Check(!cShort && !sShort, "ReadPopulation."+x[0]+".value", p.Pos(st.Pos()), "compared with "+cs+", set to "+ss+": never below the genome's last",
+					fmt.Sprintf("%s is compared with %s and set to %s: after reading, the counter can be below the last id / number of a genome read, and the next one issued collides with it", x[0], cs, ss))
+			}
 		}
 	}
 }
@@ -398,8 +478,19 @@ func (r *Run) c03Reset() {
 		case *ssa.Const:
 			return v.Value == nil
 		case *ssa.Slice:
-			_, isAlloc := v.X.(*ssa.Alloc)
-			return isAlloc
+			// list[:0] - no element is kept, whatever is sliced
+			if k, isK := v.High.(*ssa.Const); isK && k.Value != nil && k.Value.ExactString() == "0" {
+				return true
+			}
+			// []Innovation{} (also what make([]Innovation, 0) with a constant length may be lowered to): a slice of a
+			// fresh array of length zero - an array with elements would leave zero-valued records behind
+			if al, isAlloc := v.X.(*ssa.Alloc); isAlloc {
+				if pt, isPtr := al.Type().Underlying().(*types.Pointer); isPtr {
+					if at, isArr := pt.Elem().Underlying().(*types.Array); isArr {
+						return at.Len() == 0
+					}
+				}
+			}
 		}
 		return false
 	}
@@ -407,33 +498,7 @@ func (r *Run) c03Reset() {
 	// candidates: the functions on the epoch path
 	re := p.Reachable([]*ssa.Function{p.Func(PkgG, "SequentialPopulationEpochExecutor.NextEpoch"), p.Func(PkgG, "ParallelPopulationEpochExecutor.NextEpoch")}, nil)
 	fns := re.RepoFuncs()
-	isErrReturn := func(in ssa.Instruction) bool {
-		ret, ok := in.(*ssa.Return)
-		if !ok || len(ret.Results) == 0 {
-			return false
-		}
-		ev := ret.Results[len(ret.Results)-1]
-		if _, isErr := ev.Type().Underlying().(*types.Interface); !isErr {
-			return false
-		}
-		for _, g := range Guards(ret.Block()) {
-			if b, ok := g.Cond.(*ssa.BinOp); ok && (b.X == ev || b.Y == ev) {
-				if (b.Op == token.NEQ && g.True) || (b.Op == token.EQL && !g.True) {
-					return true
-				}
-			}
-		}
-		// a freshly built error
-		if c, ok := ev.(*ssa.Call); ok {
-			n, _ := calleeName(&c.Call)
-			return strings.HasPrefix(n, "fmt.Errorf") || strings.HasPrefix(n, "errors.")
-		}
-		if _, ok := ev.(*ssa.UnOp); ok {
-			// a package-level error value
-			return true
-		}
-		return false
-	}
+	isErrReturn := c03IsErrReturn
 	for iter := 0; iter < 6; iter++ {
 		changed := false
 		for _, fn := range fns {
@@ -722,7 +787,7 @@ func c03Core(p *Prog, r *Run, sums *Summaries) {
 		r.Floor("structural mutators", len(sites), 3)
 	})
 
-	r.Rule("C03.3", "novel innovations are recorded: exactly one StoreInnovation on the novel path whose record is built from the same node ids, recurrence flag, numbers and node id that were just used", func() {
+	r.Rule("C03.3", "novel innovations are recorded: exactly one StoreInnovation on the novel path whose record is built from the same node ids, recurrence flag, numbers and node id that were just used; numbers and node ids are issued and records stored only for an innovation that matched no record (after a gene was built from a matched record the same attempt issues and stores nothing)", func() {
 		for _, s := range sites {
 			name := s.fn.Name()
 			if s.storeCall == nil || s.recCtor == nil || len(s.novel) == 0 {
@@ -739,6 +804,45 @@ func c03Core(p *Prog, r *Run, sums *Summaries) {
 			lps := Loops(s.fn)
 			r.Check(n == 1 && sameBlock && InnermostLoop(lps, s.storeCall.Block()) == InnermostLoop(lps, s.novel[0].call.Block()), name+".record.once", p.Pos(s.storeCall.Pos()), "one record per novel innovation, on the novel path",
 				fmt.Sprintf("%s stores %d records, or not on the path that issues the new number", name, n))
+			// ... and only for an innovation that matched no record: once a gene has been built from a matched record,
+			// the same attempt issues no number, no node id and stores no record (it would give one innovation of this
+			// generation two numbers). The search follows the match flag (a phi of constants) or the gene variable's
+			// nil-ness, whichever the code branches on, and stays within one attempt of an enclosing retry loop.
+			issues := func(in ssa.Instruction) bool {
+				ci, ok := in.(ssa.CallInstruction)
+				if !ok || !ci.Common().IsInvoke() {
+					return false
+				}
+				switch ci.Common().Method.Name() {
+				case "NextInnovationNumber", "NextNodeId", "StoreInnovation":
+					return true
+				}
+				return false
+			}
+			outer := OuterLoops(lps, s.storeCall.Block())
+			nextAttempt := func(from, to *ssa.BasicBlock) bool {
+				for _, l := range outer {
+					if l.Header == to && l.Blocks[from] {
+						return true
+					}
+				}
+				return false
+			}
+			var fresh []ssa.Value
+			if sums.Ctor(p.Func(PkgG, "NewGeneWithTrait")).Fresh {
+				for _, q := range s.reuse {
+					fresh = append(fresh, q.call)
+				}
+			}
+			for i, q := range s.reuse {
+				w := c03PathAfter(p, s.fn, q.call, Guards(q.call.Block()), fresh, issues, nextAttempt)
+				cn := name + ".novel.unmatched-only"
+				if i > 0 {
+					cn += fmt.Sprintf("#%d", i+1)
+				}
+				r.Check(w == nil, cn, p.Pos(q.call.Pos()), "after a gene was built from a matched record the attempt issues no number or node id and stores no record",
+					name+": after a gene was built from a matched record the same attempt can still issue a fresh number / node id or store a record: one innovation of a generation receives two numbers", w...)
+			}
 			callee := s.recCtor.Call.StaticCallee()
 			if callee == nil {
 				r.Undecided(name+".record.ctor", p.Pos(s.recCtor.Pos()), "dynamic record constructor")
@@ -843,4 +947,33 @@ func isSpilledParam(v ssa.Value, prm *ssa.Parameter) bool {
 		}
 	}
 	return n == 1
+}
+
+// c03IsErrReturn: the return hands back an error that is known to be set (tested non-nil on the way, or freshly built).
+func c03IsErrReturn(in ssa.Instruction) bool {
+	ret, ok := in.(*ssa.Return)
+	if !ok || len(ret.Results) == 0 {
+		return false
+	}
+	ev := ret.Results[len(ret.Results)-1]
+	if _, isErr := ev.Type().Underlying().(*types.Interface); !isErr {
+		return false
+	}
+	for _, g := range Guards(ret.Block()) {
+		if b, ok := g.Cond.(*ssa.BinOp); ok && (b.X == ev || b.Y == ev) {
+			if (b.Op == token.NEQ && g.True) || (b.Op == token.EQL && !g.True) {
+				return true
+			}
+		}
+	}
+	// a freshly built error
+	if c, ok := ev.(*ssa.Call); ok {
+		n, _ := calleeName(&c.Call)
+		return strings.HasPrefix(n, "fmt.Errorf") || strings.HasPrefix(n, "errors.")
+	}
+	if _, ok := ev.(*ssa.UnOp); ok {
+		// a package-level error value
+		return true
+	}
+	return false
 }
